@@ -302,6 +302,14 @@ func c13Run(c Case) (Result, error) {
 
 	var coqOps []string
 	digests := 0
+	// digests handed out are values: later operations on the hasher must not change them, and the
+	// message buffer passed in must be left unmodified
+	type keptDigest struct {
+		raw []byte
+		hex string
+	}
+	var keptOut []keptDigest
+	argModified := false
 	for i, op := range in.Ops {
 		var term, out string
 		p, msg := catch(func() {
@@ -310,13 +318,21 @@ func c13Run(c Case) (Result, error) {
 				_, _ = h.Write(misalign(unhx(op.Data), i))
 				term = "OWrite " + cqs(op.Data)
 			case "sum":
-				out = hx(h.SumHash())
+				raw := h.SumHash()
+				out = hx(raw)
+				keptOut = append(keptOut, keptDigest{raw, out})
 				term = "OSum " + cqs(out)
 			case "reset":
 				h.Reset()
 				term = "OReset"
 			case "compute":
-				out = hx(h.ComputeHash(misalign(unhx(op.Data), i+3)))
+				arg := misalign(unhx(op.Data), i+3)
+				raw := h.ComputeHash(arg)
+				out = hx(raw)
+				keptOut = append(keptOut, keptDigest{raw, out})
+				if hx(arg) != op.Data {
+					argModified = true
+				}
 				term = fmt.Sprintf("OCompute %s %s", cqs(op.Data), cqs(out))
 			}
 		})
@@ -343,6 +359,14 @@ func c13Run(c Case) (Result, error) {
 		}
 		obs = append(obs, obsOp{op.Op, out, ""})
 		coqOps = append(coqOps, term)
+	}
+	if argModified {
+		return Result{}, implViolation("ComputeHash modified the caller's message buffer")
+	}
+	for k, kd := range keptOut {
+		if hx(kd.raw) != kd.hex {
+			return Result{}, implViolation("digest #%d returned earlier (%s) reads %s after later operations on the same hasher", k, kd.hex, hx(kd.raw))
+		}
 	}
 	return Result{Coq: fmt.Sprintf("CObj %s %s", algTerm, cqlist(coqOps)), Key: key, Nontrivial: digests > 0,
 		Obs: map[string]any{"ctor_ok": true, "ops": obs}}, nil
